@@ -357,6 +357,89 @@ pub fn alias_method_programs() -> Vec<Prog> {
     out
 }
 
+/// Shapes that printers and generators treat specially or reach along a path of their own:
+/// (1) a named type (plain record, recursive list, mutual recursion, recursive function, alias) reached only through
+///     each kind of wrapper - directly, under opt / vec, as record field, variant payload, function argument or
+///     result, service method, and combinations - from the init arguments only, from a method only, or both;
+/// (2) service constructors with an empty init-argument list (inline service, named service, recursive service);
+/// (3) records and variants whose ids are exactly 0..n-1 (the tuple shorthand applies to records only), with null
+///     and non-null payloads, as definitions, nested, and as arguments.
+pub fn shape_programs() -> Vec<Prog> {
+    let nat = || p(Prim::Nat);
+    let text = || p(Prim::Text);
+    let null = || p(Prim::Null);
+    let nl = |s: &str| PLabel::named(s);
+    let f = |a: Vec<PTy>, r: Vec<PTy>, m: Vec<Mode>| PTy::func(a, r, m);
+    let svc = |ms: Vec<(&str, PTy)>| PTy::Service(ms.into_iter().map(|(n, t)| (n.to_string(), t)).collect());
+    let class = |args: Vec<PTy>, t: PTy| Some(PActor::Class(args.into_iter().map(|a| (None, a)).collect(), t));
+    let mk = |defs: &Vec<(&str, PTy)>, actor: Option<PActor>| Prog { defs: defs.iter().map(|(n, t)| (n.to_string(), t.clone())).collect(), actor, actor_name: None };
+    let m0 = || svc(vec![("m", f(vec![], vec![], vec![]))]);
+    let mut out = vec![];
+    // (1)
+    let ev = PTy::Record(vec![(nl("id"), nat()), (nl("note"), text())]);
+    let list = |n: &str| PTy::opt(PTy::Record(vec![(PLabel::Id(0), nat()), (PLabel::Id(1), PTy::var(n))]));
+    let wrappers: Vec<Box<dyn Fn(PTy) -> PTy>> = vec![
+        Box::new(|t| t),
+        Box::new(PTy::opt),
+        Box::new(PTy::vec),
+        Box::new(|t| PTy::Record(vec![(PLabel::named("sink"), t)])),
+        Box::new(|t| PTy::Variant(vec![(PLabel::named("some"), t), (PLabel::named("none"), p(Prim::Null))])),
+        Box::new(|t| PTy::func(vec![t], vec![], vec![Mode::Oneway])),
+        Box::new(|t| PTy::func(vec![], vec![t], vec![Mode::Query])),
+        Box::new(|t| PTy::Service(vec![("notify".to_string(), PTy::func(vec![t], vec![], vec![]))])),
+        Box::new(|t| PTy::opt(PTy::func(vec![], vec![t], vec![Mode::Query]))),
+        Box::new(|t| PTy::Record(vec![(PLabel::named("sink"), PTy::Service(vec![("notify".to_string(), PTy::func(vec![t.clone()], vec![t], vec![]))]))])),
+    ];
+    let named: Vec<(Vec<(&str, PTy)>, &str)> = vec![
+        (vec![("Event", ev.clone())], "Event"),
+        (vec![("Node", list("Node"))], "Node"),
+        (vec![("A", PTy::Record(vec![(nl("b"), PTy::opt(PTy::var("B")))])), ("B", PTy::Record(vec![(nl("a"), PTy::opt(PTy::var("A")))]))], "A"),
+        (vec![("F", f(vec![PTy::var("F")], vec![], vec![]))], "F"),
+        (vec![("Alias", PTy::var("Event")), ("Event", ev.clone())], "Alias"),
+    ];
+    for w in &wrappers {
+        for (defs, n) in &named {
+            let arg = w(PTy::var(n));
+            out.push(mk(defs, class(vec![arg.clone()], m0())));
+            out.push(mk(defs, class(vec![arg.clone(), nat()], m0())));
+            out.push(mk(defs, class(vec![nat(), arg.clone()], svc(vec![("m", f(vec![nat()], vec![], vec![]))]))));
+            out.push(mk(defs, class(vec![nat()], svc(vec![("m", f(vec![arg.clone()], vec![arg.clone()], vec![]))]))));
+            out.push(mk(defs, Some(PActor::Service(svc(vec![("m", f(vec![arg.clone()], vec![], vec![]))])))));
+            out.push(mk(defs, None));
+        }
+    }
+    // (2)
+    let sdef = svc(vec![("get", f(vec![], vec![nat()], vec![Mode::Query]))]);
+    let rsvc = svc(vec![("next", f(vec![], vec![PTy::var("S")], vec![]))]);
+    out.push(mk(&vec![], class(vec![], svc(vec![]))));
+    out.push(mk(&vec![], class(vec![], m0())));
+    out.push(mk(&vec![("S", sdef.clone())], class(vec![], PTy::var("S"))));
+    out.push(mk(&vec![("S", rsvc.clone())], class(vec![], PTy::var("S"))));
+    out.push(mk(&vec![("S", sdef.clone()), ("T", PTy::var("S"))], class(vec![], PTy::var("T"))));
+    out.push(mk(&vec![("t", nat())], class(vec![], svc(vec![("m", f(vec![PTy::var("t")], vec![], vec![]))]))));
+    out.push(mk(&vec![("S", sdef.clone())], class(vec![null()], PTy::var("S"))));
+    out.push(mk(&vec![("S", sdef.clone())], class(vec![PTy::Record(vec![])], PTy::var("S"))));
+    // (3)
+    for n in 1..=3usize {
+        for payload in [null(), nat(), PTy::opt(text())] {
+            let fs: Vec<(PLabel, PTy)> = (0..n).map(|i| (PLabel::Id(i as u32), payload.clone())).collect();
+            let mixed: Vec<(PLabel, PTy)> = (0..n).map(|i| (PLabel::Id(i as u32), if i % 2 == 0 { payload.clone() } else { text() })).collect();
+            for (r, v) in [(PTy::Record(fs.clone()), PTy::Variant(fs.clone())), (PTy::Record(mixed.clone()), PTy::Variant(mixed.clone()))] {
+                out.push(mk(&vec![("r", r.clone()), ("v", v.clone())], Some(PActor::Service(svc(vec![("m", f(vec![PTy::var("r")], vec![PTy::var("v")], vec![]))])))));
+                out.push(mk(&vec![], Some(PActor::Service(svc(vec![("m", f(vec![v.clone(), PTy::opt(v.clone())], vec![r.clone(), PTy::vec(r.clone())], vec![]))])))));
+                out.push(mk(&vec![("n", PTy::Record(vec![(nl("inner"), v.clone()), (PLabel::Id(7), PTy::vec(v.clone()))]))], class(vec![v.clone()], m0())));
+                out.push(mk(&vec![("w", PTy::Variant(vec![(nl("a"), v.clone()), (nl("b"), r.clone())]))], None));
+            }
+        }
+    }
+    // ids 0..n-1 with one id moved (not a tuple), and ids starting at 1
+    for ids in [vec![1u32], vec![0, 2], vec![1, 2], vec![0, 1, 3]] {
+        let fs: Vec<(PLabel, PTy)> = ids.iter().map(|i| (PLabel::Id(*i), nat())).collect();
+        out.push(mk(&vec![("r", PTy::Record(fs.clone())), ("v", PTy::Variant(fs.clone()))], Some(PActor::Service(svc(vec![("m", f(vec![PTy::var("r")], vec![PTy::var("v")], vec![]))])))));
+    }
+    out
+}
+
 /// Definition names: valid Candid identifiers that are not Candid keywords, including
 /// target-language keywords and names that collide after case conversion.
 pub fn def_names() -> Vec<String> {
